@@ -162,6 +162,8 @@ type Machine struct {
 	curFrame    *frame // innermost frame (tracing only)
 	preemptBound, preemptions int // context bound: at most preemptBound switches away from a runnable thread (0 = unbounded)
 	daemonsFirst bool // see switchAway
+	delayBound  int  // vsym_DelayBound: at most this many non-default scheduling picks per path (0 = unbounded)
+	delays      int
 	coarse      bool // preempt only at vsym_Event/vsym_Yield and when a thread blocks
 	events      []string
 	sideMutex   map[*Value]*mutexState
@@ -546,6 +548,7 @@ func (m *Machine) resetRun(item WorkItem) {
 	m.tokens, m.timers, m.afterFuncs, m.kvTokens, m.tokenByKey = nil, nil, nil, 0, nil
 	m.threads, m.cur, m.explore, m.killing = nil, nil, false, false
 	m.coarse = false
+	m.delayBound, m.delays = 0, 0
 	m.daemonsFirst = false
 	m.preemptBound, m.preemptions = 0, 0
 	m.finalAb, m.finalPan = nil, nil
